@@ -70,7 +70,7 @@ pub struct RandomSource {
 const BASE_NAMES: &[&str] = &[
     "a", "B.TXT", "d", "e", "f.dat", "readme.md", "x", "Makefile", "A LONG file name.text", "another-long-directory-name", "longfilename1.txt", "longfilename2.txt", "longfilename3.txt", "LONGFI~1.TXT",
     "a.b.c.d", ".hidden", "trailing.", " lead", "UPPER", "lower", "MiXeD.CaSe", "name with spaces and more than thirteen chars.extension", "exactly13char", "exactly-26-characters-long",
-    "p", "q", "r", "verylongnamewithoutanydotsorspacesinsideit", "x+y=z;[1],2", "$%'-_@~`!(){}^#&",
+    "p", "q", "r", "verylongnamewithoutanydotsorspacesinsideit", "x+y=z;[1],2", "$%'-_@~`!(){}^#&", "index.html", "index.htm", "photo.jpeg", "PHOTO.JPG",
 ];
 const UNI_NAMES: &[&str] = &["\u{e9}t\u{e9}.txt", "\u{df}", "stra\u{df}e", "\u{416}\u{438}\u{432}\u{430}\u{433}\u{43e}", "\u{4e2d}\u{6587}.doc", "\u{fb01}le", "\u{3a3}\u{3af}\u{3c3}\u{3c5}\u{3c6}\u{3bf}\u{3c2}", "caf\u{c9}"];
 const BAD_NAMES: &[&str] = &["x:y", "a*b", "what?", "pipe|", "quo\"te", "<lt", "back\\slash", "\u{1F600}smile", "ctl\u{1}"];
